@@ -210,6 +210,49 @@ def R1_plugin(ctx):
     ctx.check(aligned, "overlay:same-axis", "the overlay does not use the same axis index for the key, the option list and the chosen position: %s" % why_al, b.where(), detail="child[keys[i]] = options[i][combination[i]]")
 
 
+def cleanA(t):
+    """clean(), with the array payload of a JSON value spelled one way: `v.as_array()` / `v.as_array_mut()` and the binding of a
+    `Value::Array(a)` pattern are the same vector"""
+    return rewrite(clean(t), lambda y: ("field", ("variant", cleanA(y[2][0]), "Array"), "0") if y[0] == "call" and len(y[2]) == 1 and re.search(r"Value::as_array(_mut)?$", y[1]) else None)
+
+
+def _flat_map_form(F, b, tm, TOP, TRUNC):
+    """flattened = top.iter_mut().flat_map(|v| match v { Array(sub) => all of sub's elements, other => [other] }).collect()"""
+    for c in b.calls():
+        if not (c.callee and itm(c.callee, "flat_map")):
+            continue
+        recv = cleanA(tm.operand(c.args[0], c.bb))
+        cl = tm.operand(c.args[1], c.bb)
+        if not (recv == ("call", "std::slice::<impl [T]>::iter_mut", (TOP,)) and cl[0] == "closure" and cl[1] in F.bodies):
+            return False, "flat_map does not run over every element of the array", None
+        cb = F.bodies[cl[1]]
+        n_arr = n_other = 0
+        for r in table(cb):
+            if r.end != "return":
+                continue
+            kinds = [v for k, v in r.sel.items() if clean(k) == ("arg", 2)]
+            if len(kinds) != 1:
+                return False, "an element is handled without looking whether it is an array", None
+            names_ = set(kinds[0][1]) if isinstance(kinds[0], tuple) else {kinds[0]}
+            ret = clean(r.ret)
+            if names_ == {"Array"}:
+                n_arr += 1
+                pf = positional_form(F, ret)
+                if pf is None or pf[0] != ("at", ("field", ("variant", ("arg", 2), "Array"), "0"), ("i",)) or [x for x in calls_in(ret) if re.search(TRUNC, x[1])]:
+                    return False, "the elements of a nested array are not all yielded", None
+            elif "Array" not in names_:
+                n_other += 1
+                if ret != ("call", "vec!", (("array", (("arg", 2),)),)) and ret != ("call", "std::iter::once", (("arg", 2),)) and ret != ("agg", "std::option::Option", "Some", (("0", ("arg", 2)),)):
+                    return False, "an element that is not an array is not yielded as it is", None
+            else:
+                return False, "an element is handled without looking whether it is an array", None
+        if not (n_arr >= 1 and n_other >= 1):
+            return False, "expected one arm for nested arrays and one for other elements", None
+        out = cleanA(tm.call_term(c.term, c.bb))
+        return True, "", out
+    return None
+
+
 def R2_flatten(ctx):
     """C17.R2 flattening"""
     F = ctx.F
@@ -223,7 +266,7 @@ def R2_flatten(ctx):
     repl = []
     for c in b.calls():
         if (c.callee or "").endswith("mem::swap") or (c.callee or "").endswith("mem::replace"):
-            a0, a1 = clean(tm.operand(c.args[0], c.bb)), clean(tm.operand(c.args[1], c.bb))
+            a0, a1 = cleanA(tm.operand(c.args[0], c.bb)), cleanA(tm.operand(c.args[1], c.bb))
             if ("arg", 1) in (a0, a1):
                 repl.append((c.bb, a1 if a0 == ("arg", 1) else a0, c.where()))
     for bb_, blk_ in enumerate(b.blocks):
@@ -231,14 +274,14 @@ def R2_flatten(ctx):
             continue
         for pos_, st_ in enumerate(blk_["stmts"]):
             if st_["k"] == "assign" and st_["place"]["l"] == 1 and [e["k"] for e in st_["place"]["p"]] == ["deref"]:
-                repl.append((bb_, clean(tm.rvalue(st_["rv"], bb_, pos_)), b.where(bb_)))
+                repl.append((bb_, cleanA(tm.rvalue(st_["rv"], bb_, pos_)), b.where(bb_)))
     # the verdict "no element is an array": all(|v| !v.is_array()) is true / any(|v| v.is_array()) is false
     oka = False
     why = "no test of the elements for arrays found"
     for sbb, dt, names, t in switches(b, tm):
         if names is not None:
             continue
-        d = clean(dt)
+        d = cleanA(dt)
         neg = False
         while d[0] == "un" and d[1] == "Not":
             d, neg = d[2], not neg
@@ -248,7 +291,7 @@ def R2_flatten(ctx):
         if not (contains(recv, lambda q: q == TOP) and not [x for x in calls_in(recv) if re.search(TRUNC, x[1])]):
             why = "the test does not run over all elements of the array"
             continue
-        crt = clean(Terms(F.need(d[2][1][1])).return_term())
+        crt = cleanA(Terms(F.need(d[2][1][1])).return_term())
         cneg = False
         while crt[0] == "un" and crt[1] == "Not":
             crt, cneg = crt[2], not cneg
@@ -282,10 +325,10 @@ def R2_flatten(ctx):
         rows = [r for r in iteration_table(b, h) if r.kind != "diverge"]
         if not rows or not all(r.conds for r in rows):
             continue
-        d0 = clean(rows[0].conds[0][0])
+        d0 = cleanA(rows[0].conds[0][0])
         if not (d0[0] == "discr" and d0[1][0] == "call" and re.search(r"::next$", d0[1][1]) and contains(d0[1], lambda q: q == ("call", "std::slice::<impl [T]>::iter_mut", (TOP,)))):
             continue
-        if [x for x in calls_in(d0[1]) if re.search(TRUNC, x[1])] or not all(clean(r.conds[0][0]) == d0 for r in rows):
+        if [x for x in calls_in(d0[1]) if re.search(TRUNC, x[1])] or not all(cleanA(r.conds[0][0]) == d0 for r in rows):
             whyp = "the pass does not visit every element"
             continue
         ELEM = d0[1]
@@ -299,10 +342,10 @@ def R2_flatten(ctx):
                 continue
             kind = None
             for dt, l, _ in r.conds[1:]:
-                if clean(dt) == ("discr", ELEM):
+                if cleanA(dt) == ("discr", ELEM):
                     names_ = set(l[1]) if isinstance(l, tuple) else {l}
                     kind = "array" if names_ == {"Array"} else ("other" if "Array" not in names_ else None)
-            adds = [(k, clean(v)) for bb_, k, v in r.sites if k and re.search(r"Vec::<T, A>::push$|Extend<.*>>::extend$|Vec::<T, A>::(append|extend_from_slice)$", k)]
+            adds = [(k, cleanA(v)) for bb_, k, v in r.sites if k and re.search(r"Vec::<T, A>::push$|Extend<.*>>::extend$|Vec::<T, A>::(append|extend_from_slice)$", k)]
             if kind == "other":
                 n_other += 1
                 if not (r.kind == "back" and len(adds) == 1 and adds[0][0].endswith("::push") and adds[0][1][2][1] == ELEM):
@@ -323,10 +366,10 @@ def R2_flatten(ctx):
                     oki = False
                     for h2 in inner:
                         irows = [x for x in iteration_table(b, h2) if x.kind != "diverge"]
-                        i0 = clean(irows[0].conds[0][0]) if irows and irows[0].conds else None
+                        i0 = cleanA(irows[0].conds[0][0]) if irows and irows[0].conds else None
                         if i0 and i0[0] == "discr" and contains(i0[1], lambda q: q == SUB) and not [x for x in calls_in(i0[1]) if re.search(TRUNC, x[1])]:
                             backs = [x for x in irows if x.kind == "back" and x.conds[0][1] == "Some"]
-                            oki = bool(backs) and all(len([1 for bb_, k, v in x.sites if k and k.endswith("::push")]) == 1 and [clean(v)[2][1] for bb_, k, v in x.sites if k and k.endswith("::push")] == [i0[1]] for x in backs)
+                            oki = bool(backs) and all(len([1 for bb_, k, v in x.sites if k and k.endswith("::push")]) == 1 and [cleanA(v)[2][1] for bb_, k, v in x.sites if k and k.endswith("::push")] == [i0[1]] for x in backs)
                     if not oki:
                         okp, whyp = False, "the elements of a nested array are not all pushed"
                 else:
@@ -336,18 +379,27 @@ def R2_flatten(ctx):
         if okp and not (n_arr >= 1 and n_other >= 1):
             okp, whyp = False, "expected one arm for nested arrays and one for other elements"
         break
+    if not okp and flat is None:
+        fm = _flat_map_form(F, b, tm, TOP, TRUNC)
+        if fm is not None:
+            okp, whyp, flat = fm
     ctx.check(okp, "moves-every-element", "nested arrays' elements and plain elements are not all pushed to one flattened vector in order: %s" % whyp, b.where(), detail="for v1 {Array => all of its elements; other => itself}")
     ctx.check(len(repl) == 1 and flat is not None and contains(repl[0][1], lambda q: q == flat), "swapped-in", "the flattened array is not swapped into the query state", b.where())
     # non-array input => invariant error
     okx = False
     for sbb, dt, names, t in switches(b, tm):
-        if clean(dt) == ("discr", ("arg", 1)) and names and "Array" in names.values():
+        if cleanA(dt) == ("discr", ("arg", 1)) and names and "Array" in names.values():
             arr_t = switch_target(t, names, "Array")
             others = set([x[1] for x in t["targets"]] + [t["otherwise"]]) - {arr_t}
             okx = bool(others)
             for o in others:
                 vals = region_value(b, (sbb, o))
                 okx = okx and bool(vals) and all(is_err_value(deep_strip(v)) and calls_in(v, OPS + "package_invariant_error") for _, v in vals)
+        # `match result.as_array_mut() { Some(a) => a, None => return Err(package_invariant_error(..)) }`
+        d_ = cleanA(dt)
+        if d_ == ("discr", TOP) and names and set(names.values()) == {"Some", "None"}:
+            vals = region_value(b, (sbb, switch_target(t, names, "None")))
+            okx = bool(vals) and all(is_err_value(deep_strip(v)) and calls_in(v, OPS + "package_invariant_error") for _, v in vals)
     ctx.check(okx, "non-array=>invariant-error", "a non-array state is not reported with package_invariant_error", b.where())
     # json_array_op
     _json_array_op(ctx, F)
@@ -387,7 +439,7 @@ def _json_array_op(ctx, F):
         if len(calls) != 1:
             continue
         c = calls[0]
-        q = clean(btm.operand(c.args[1], c.bb))
+        q = cleanA(btm.operand(c.args[1], c.bb))
         q = q[1][0] if q[0] == "tuple" and len(q[1]) == 1 else q
         if body is ob:
             # loop form: q is the element of queries.iter_mut()
@@ -397,39 +449,48 @@ def _json_array_op(ctx, F):
             me = [m for m in ob.calls() if m.callee and m.callee.endswith("Result::<T, E>::map_err")]
             if len(me) == 1:
                 cl = otm.operand(me[0].args[1], me[0].bb)
-                crt = clean(Terms(F.need(cl[1])).return_term()) if cl[0] == "closure" else None
-                recv = clean(otm.operand(me[0].args[0], me[0].bb))
-                okm = crt is not None and crt[0] == "call" and crt[1].endswith("package_error") and crt[2][1] == ("arg", 2) and recv == clean(otm.call_term(c.term, c.bb))
+                crt = cleanA(Terms(F.need(cl[1])).return_term()) if cl[0] == "closure" else None
+                recv = cleanA(otm.operand(me[0].args[0], me[0].bb))
+                okm = crt is not None and crt[0] == "call" and crt[1].endswith("package_error") and crt[2][1] == ("arg", 2) and recv == cleanA(otm.call_term(c.term, c.bb))
                 if okm and cl[2]:
-                    okm = clean(cl[2][0]) == q and crt[2][0] == ("field", ("arg", 1), "0")
+                    okm = cleanA(cl[2][0]) == q and crt[2][0] == ("field", ("arg", 1), "0")
                 okm = okm and try_propagation(ob, me[0], otm)["kind"] == "propagated"
             else:
                 okm = none_is_fine = False
                 rows = [r for r in iteration_table(ob, lp[0]) if r.kind == "return"] if lp else []
-                callt = clean(otm.call_term(c.term, c.bb))
-                errs = [r for r in rows if any(clean(dt) == ("discr", callt) and (l == "Err" or (isinstance(l, tuple) and set(l[1]) == {"Err"})) for dt, l, _ in r.conds)]
-                okm = bool(errs) and all(_is_packaged(clean(r.ret), q) for r in errs)
+                callt = cleanA(otm.call_term(c.term, c.bb))
+                errs = [r for r in rows if any(cleanA(dt) == ("discr", callt) and (l == "Err" or (isinstance(l, tuple) and set(l[1]) == {"Err"})) for dt, l, _ in r.conds)]
+                okm = bool(errs) and all(_is_packaged(cleanA(r.ret), q) for r in errs)
         else:
             # closure form: queries.iter_mut().try_for_each(|q| ...)
             tf = [x for x in ob.calls() if x.callee and itm(x.callee, "try_for_each")]
             if len(tf) != 1:
                 whyo = "op is called in a closure that is not run by try_for_each"
                 continue
-            recv = clean(otm.operand(tf[0].args[0], tf[0].bb))
+            recv = cleanA(otm.operand(tf[0].args[0], tf[0].bb))
             cl = otm.operand(tf[0].args[1], tf[0].bb)
             oko = q == ("arg", 2) and cl[0] == "closure" and cl[1] == body.path and contains(recv, lambda x: x == ("call", "std::slice::<impl [T]>::iter_mut", (TOP,))) and not [x for x in calls_in(recv) if re.search(TRUNC, x[1])] and not body.natural_loops()
             whyo = "" if oko else "op is not called on each element of queries.iter_mut()"
-            callt = clean(btm.call_term(c.term, c.bb))
+            callt = cleanA(btm.call_term(c.term, c.bb))
             rows = [r for r in table(body, max_paths=5000) if r.end == "return"]
-            errs = [r for r in rows if any(clean(k) == callt and v == "Err" for k, v in r.sel.items())]
-            oks = [r for r in rows if any(clean(k) == callt and v == "Ok" for k, v in r.sel.items())]
-            okm = bool(errs) and all(_is_packaged(clean(r.ret), ("arg", 2)) for r in errs) and bool(oks) and all(result_variant(r.ret) == "Ok" for r in oks)
+            errs = [r for r in rows if any(cleanA(k) == callt and v == "Err" for k, v in r.sel.items())]
+            oks = [r for r in rows if any(cleanA(k) == callt and v == "Ok" for k, v in r.sel.items())]
+            okm = bool(errs) and all(_is_packaged(cleanA(r.ret), ("arg", 2)) for r in errs) and bool(oks) and all(result_variant(r.ret) == "Ok" for r in oks)
+            if not errs and not oks:
+                # the closure's value is op(q).map_err(|e| package_error(q, e)) itself
+                raw = nosite(btm.return_term())
+                while raw[0] == "mut":
+                    raw = unmut(raw)
+                if raw[0] == "call" and raw[1].endswith("Result::<T, E>::map_err") and cleanA(raw[2][0]) == callt and raw[2][1][0] == "closure" and raw[2][1][1] in F.bodies:
+                    crt = cleanA(Terms(F.bodies[raw[2][1][1]]).return_term())
+                    caps = [cleanA(x) for x in raw[2][1][2]]
+                    okm = crt[0] == "call" and crt[1].endswith("package_error") and len(crt[2]) == 2 and crt[2][1] == ("arg", 2) and crt[2][0] == ("field", ("arg", 1), "0") and caps[:1] == [("arg", 2)]
             okm = okm and try_propagation(ob, tf[0], otm)["kind"] == "propagated"
         break
     ctx.check(oko, "op-on-every-query", "the plugin operation is not applied to every element of the query array: %s" % whyo, ob.where(), detail="for q in queries.iter_mut() { op(q) }")
     ctx.check(okm, "failure=>packaged-with-its-query", "a plugin failure is not packaged with package_error(q, e) of the failing query and returned", ob.where(), detail="map_err(|e| package_error(q, e))?")
     fl = [c for c in ob.calls() if c.callee == OPS + "json_array_flatten_in_place"]
-    ctx.check(len(fl) == 1 and clean(otm.operand(fl[0].args[0], fl[0].bb)) == ("arg", 1), "then-flatten", "the state is not flattened after the operation", ob.where())
+    ctx.check(len(fl) == 1 and cleanA(otm.operand(fl[0].args[0], fl[0].bb)) == ("arg", 1), "then-flatten", "the state is not flattened after the operation", ob.where())
 
 
 def _is_packaged(ret, q):
